@@ -1,2 +1,10 @@
 // @module subscribers::h
 use super::*;
+use worterbuch_common::ClientId;
+
+pub(crate) fn s(x: &str) -> String {
+    x.to_owned()
+}
+pub(crate) fn cid(n: u128) -> ClientId {
+    ClientId::from_u128(n)
+}
